@@ -8,6 +8,14 @@ HERE = os.path.dirname(os.path.dirname(os.path.abspath(__file__)))
 
 # id -> (technique, level text, level note, design ref)
 CHECKS = {
+    "C04": (
+        "exhaustive enumeration of match sequences / membership multisets / boundary values through four construction paths (constructor, model_validate, model_validate_json, edited AOEF document + io.load) against set/multiset predicates",
+        "ClipEvaluation: every subset of annotations x predictions present x same/different clip x every sequence of <= 3 (quick) / <= 4 (thorough) matches over the 15 (source, target) kinds incl. foreign and duplicated ones; "
+        "Match: presence forms x affinity x score over the boundary alphabet {-1e-9, -0.0, 0, 0.5, 1, 1+ulp, 2, NaN, +-inf, None}; AnnotationProject: every multiset of <= 3 tasks x <= 3 annotated clips over 3 clips; Clip: (start, end) over {0, 1, 1+ulp, 2}^2; "
+        "the four score fields over the same alphabet - each through all four paths: accepted iff the reference predicate holds, the paths agree, an accepted object satisfies the predicate when read back, and an AOEF-loaded object carries what the edited document says.",
+        "Numeric strings, booleans and NaN clip times are outside the alphabet (Pydantic lax-mode conventions). An AOEF case is judged only when every id the edited document mentions is defined in it.",
+        "DESIGN.md 4/C04",
+    ),
     "C18": (
         "exhaustive product collection type x audio directory form x recording path shapes (1-3 recordings, each reached through a different route) x load directory form, on the real io.save/io.load against lexical POSIX path arithmetic",
         "78 208 (quick) / 1 399 104 (thorough) cases: all 8 collection types x audio directory {none, /data, /data/a b, /data/u-umlaut/CJK} as str or Path, with and without trailing slash x path shapes (inside, nested, unicode, spaces, deep, the directory itself, sibling-prefix trap /data2, elsewhere, relative) x load directory {none, A, /other, rel/dir}: "
